@@ -215,7 +215,11 @@ def run(ctx, chk):
     cp = m.assigns.get("CACHE_PATH")
     if not cp:
         raise AnalysisError(rule, "CACHE_PATH not found")
-    parts = [n.value for n in ast.walk(cp[-1]) if isinstance(n, ast.Constant) and isinstance(n.value, str)]
+    from .util import path_parts
+    parts = path_parts(cp[-1])
+    if parts is None:
+        chk.error(rule, "CACHE_PATH is built in a way this rule cannot follow: %s" % ast.unparse(cp[-1])[:80])
+        return
     rel = "dateparser/" + "/".join(parts)
     chk.ob(rule, "the cache file %s exists in the tree" % rel, ctx.repo.exists(rel), "",
            key={"construct": "cache file exists"}, file=rel, function="-", line=None)
